@@ -51,6 +51,12 @@ class Instruction:
             elif abs(self.tlist[0]) > 1.0e-8:
                 raise ValueError("Pulse time sequence must start from 0")
             else:
+                # The time sequence is measured from the start of the
+                # instruction: the compiler uses tlist[1:] as offsets from
+                # it and tlist[-1] as the duration. An accepted first entry
+                # that is not exactly 0 is removed by shifting the sequence.
+                if self.tlist[0] != 0:
+                    self.tlist = np.asarray(self.tlist) - self.tlist[0]
                 self.duration = self.tlist[-1]
         else:
             self.duration = duration
